@@ -108,6 +108,19 @@ func VxHNV() {
 		kind := vxRun(func() { wf.RunTo("C") })
 		vxEmit("run " + kind)
 		vxEmitState("after RunTo(C)")
+	case 7, 8, 9: // a failing command: exit status 3 after a partial write / its shell killed by a signal / declared output never written
+		if vxGet("report") == 0 {
+			wf := mk()
+			apat := map[int]string{7: "vcmd w:{o:o2} h:{o:o1} e:3", 8: "vcmd w:{o:o2} h:{o:o1} e:255", 9: "vcmd w:{o:o2} # {o:o1}"}[scenario]
+			a := wf.NewProc("a", apat)
+			a.SetOut("o1", "sub/a.txt")
+			a.SetOut("o2", "a2.txt")
+			b := wf.NewProc("b", "vcmd r:{i:in} w:{o:out}")
+			b.SetOut("out", "b.txt")
+			b.In("in").From(a.Out("o1"))
+			vxRun(func() { wf.Run() })
+		}
+		vxEmitState("after failed run")
 	case 5, 6: // a run killed right before a rename (natively: strace signal injection)
 		if vxGet("report") == 0 {
 			wf := mk()
